@@ -28,6 +28,9 @@ TUP = SEQ(R(I("u16")))
 TUPL = SEQ(R(LIST(STR)))
 BLANK = SEQ(O(I("u8")), O(STR), O(LIST(BOOL)))     # a message that can be blank (zero bytes of content)
 CHBLANK = CHOICE(BLANK, I("u8"))
+# DEFAULT components: ordinary (always written) components for protobuf; the ASN.1 defaults are kept aside for the generator
+DEFINNER = SEQ(R(I("u8")), R(STR), R(BOOL))
+DEFCH = CHOICE(DEFINNER, I("u8"))
 
 ZOO = {
     0: SEQ(R(I("u8")), R(I("i8")), R(I("u16")), R(I("i16")), R(I("u32")), R(I("i32")), R(I("u64")), R(I("i64")), R(I("u64"))),
@@ -56,10 +59,20 @@ ZOO = {
     23: SEQ(R(LIST(BLANK)), R(I("u8"))),
     24: CHBLANK,
     25: SEQ(R(BLANK), O(BLANK), R(CHBLANK), R(BOOL)),
+    26: SEQ(R(STR), R(I("u8")), R(I("i8")), R(BOOL), R(STR), R(COLOR), R(I("u16")), R(I("u64")), O(STR)),
+    27: SEQ(R(I("u8")), R(BOOL), O(I("u8")), R(STR), R(BOOL)),     # SET, automatic tags: visit order = declaration order
+    28: SEQ(R(I("u8")), R(BOOL), R(COLOR), R(I("u8"))),        # zero-valued defaults (no string: DEFAULT "" is rejected by the front end)
+    29: DEFINNER,
+    30: DEFCH,
+    31: SEQ(R(LIST(DEFINNER)), R(DEFCH), O(DEFINNER)),
 }
+# component index -> ASN.1 DEFAULT value (strings as code tuples, enums as index)
+DEFAULTS = {26: {1: 3, 2: -5, 3: True, 4: (120,), 5: 1, 7: 1000000}, 27: {0: 3, 1: True, 3: (120,)},
+            28: {0: 0, 1: False, 2: 0}, 29: {0: 7, 1: (100,), 2: True}}
 ZOO_NAMES = {0: "Ints", 1: "Inner", 2: "Color", 3: "Prim", 4: "Opt", 5: "Lists", 6: "Ch2", 7: "Ch", 8: "ChSeq",
              9: "Lists2", 10: "Tup", 11: "TupL", 12: "UseTup", 13: "Deep", 14: "SetT", 15: "NullSeq", 16: "OptNull",
-             17: "ChNull", 18: "BitsT", 19: "Nested", 20: "ChList", 21: "ListNull", 22: "Blank", 23: "ListBlank", 24: "ChBlank", 25: "SeqBlank"}
+             17: "ChNull", 18: "BitsT", 19: "Nested", 20: "ChList", 21: "ListNull", 22: "Blank", 23: "ListBlank", 24: "ChBlank", 25: "SeqBlank", 26: "Defs", 27: "DefSet", 28: "DefZero",
+             29: "DefInner", 30: "DefCh", 31: "DefNest"}
 PEQ_ZOO = {
     0: SEQ(O(I("u64")), O(STR), O(BOOL), R(LIST(I("i32"))), O(BYTES), R(BITS), O(INNER), O(LIST(STR))),
     1: CHOICE(I("u64"), INNER, STR),
@@ -592,6 +605,61 @@ def blank_cases():
     return cases
 
 
+def default_cases():
+    """deterministic family: DEFAULT components equal to their default, one off it, at the proto3 zero value, mixed;
+    flat (SEQUENCE, SET, zero-valued defaults as control) and nested (list element, CHOICE alternative, OPTIONAL)"""
+    def zero(ft):
+        return {"int": 0, "bool": False, "str": (), "enum": 0}[ft[0]]
+
+    def off(ft, d):
+        k = ft[0]
+        if k == "int":
+            return d + 1 if d + 1 <= KINDS[ft[1]][1] else d - 1
+        if k == "bool":
+            return not d
+        if k == "str":
+            return tuple(d) + (121,)
+        return (d + 1) % ft[1]
+
+    def variants(tid, base):
+        t, defs = ZOO[tid], DEFAULTS[tid]
+        idx = sorted(defs)
+        out = []
+        alld = list(base)
+        for i in idx:
+            alld[i] = defs[i]
+        out.append(alld)                                           # every component equal to its default
+        for i in idx:                                              # one component off / at zero, the others default
+            for val in (off(t[1][i][1], defs[i]), zero(t[1][i][1])):
+                v = list(alld)
+                v[i] = val
+                out.append(v)
+        out.append([off(t[1][i][1], defs[i]) if i in defs else x for i, x in enumerate(alld)])      # every one off
+        out.append([zero(t[1][i][1]) if i in defs else x for i, x in enumerate(alld)])              # every one zero
+        for par in (0, 1):                                         # mixed: default / zero and zero / one off alternating
+            out.append([(defs[i] if idx.index(i) % 2 == par else zero(t[1][i][1])) if i in defs else x for i, x in enumerate(alld)])
+            out.append([(zero(t[1][i][1]) if idx.index(i) % 2 == par else off(t[1][i][1], defs[i])) if i in defs else x
+                        for i, x in enumerate(alld)])
+        return out
+
+    cases = []
+    for base in ([(110,), None, None, None, None, None, 8080, None, NONE], [(), None, None, None, None, None, 0, None, some((104,))]):
+        cases += [(26, v) for v in variants(26, base)]
+    for base in ([None, None, NONE, None, True], [None, None, some(0), None, False], [None, None, some(3), None, False]):
+        cases += [(27, v) for v in variants(27, base)]
+    for base in ([None, None, None, 0], [None, None, None, 9]):
+        cases += [(28, v) for v in variants(28, base)]
+    inner = variants(29, [None, None, None])
+    cases += [(29, v) for v in inner]
+    cases += [(30, (0, v)) for v in inner] + [(30, (1, 0)), (30, (1, 3))]
+    d, z, o1 = inner[0], [0, (), False], inner[-4]
+    for items in ([], [d], [z], [d, z, o1], [z, z], [d, d], inner[:6]):
+        for c in ((0, d), (0, z), (0, o1), (1, 0), (1, 7)):
+            for o in (NONE, some(d), some(z)):
+                cases.append((31, [items, c, o]))
+    return cases
+
+
 def zoo_cases(rng, tier, ids=None, quick_n=110):
     """-> list of (tid, value) with coverage of boundaries, defaults, optionals, alternatives"""
     n_rand = quick_n if tier == "quick" else 2500
@@ -607,6 +675,7 @@ def zoo_cases(rng, tier, ids=None, quick_n=110):
         for v in all_alternatives(t, rng):
             cases.append((tid, v))
     cases += [(tid, v) for tid, v in blank_cases() if ids is None or tid in ids]
+    cases += [(tid, v) for tid, v in default_cases() if ids is None or tid in ids]
     # every boundary of every integer kind (type 0 holds all of them)
     t0 = ZOO[0]
     kinds = [ft[1] for _, ft in t0[1]]
@@ -629,9 +698,9 @@ class C17(Spec):
                   "breaks the property; the model is tied to the crate by differential execution over a zoo of asn_to_rust! types "
                   "(dev and release), with a Python oracle for ProtobufEq and byte equality of the two writer back ends.")
     rule = ("primitive ops: varint/zig-zag/tag/uint32/bool/sfixed32 boundary families (+-2^k+-1, type extremes) and random values "
-            "with tails; raw reads of random/biased bytes incl. UTF-8 edge sequences; zoo of 26 generated types x styles "
+            "with tails; raw reads of random/biased bytes incl. UTF-8 edge sequences; zoo of 32 generated types x styles "
             "{default-ish, random with boundary integers, big (long strings/lists)} x cap modes {exact, +3, -1} for the slice back end, "
-            "every CHOICE alternative, every boundary of every integer kind, a fixed family of blank / partly filled nested messages (list element, CHOICE alternative, required, OPTIONAL; mixed within one list); ProtobufEq on hand-written derive types; malformed "
+            "every CHOICE alternative, every boundary of every integer kind, a fixed family of blank / partly filled nested messages (list element, CHOICE alternative, required, OPTIONAL; mixed within one list), a fixed family of DEFAULT components (equal to the default, one off, at the proto3 zero value, mixed; SEQUENCE, SET, nested); ProtobufEq on hand-written derive types; malformed "
             "streams for every zoo type (random bytes, truncations, bit flips, length-field overwrites of well-formed encodings). "
             "non-trivial = the op wrote at least one byte and the read-back succeeded, or a raw read got past its first byte; "
             "distinct = distinct case line")
